@@ -8,6 +8,7 @@ import (
 	abci "github.com/cometbft/cometbft/abci/types"
 	"github.com/ethereum/go-ethereum/crypto"
 	"github.com/tellor-io/layer/app"
+	bridgetypes "github.com/tellor-io/layer/x/bridge/types"
 
 	"cosmossdk.io/collections"
 
@@ -102,7 +103,68 @@ func (c *Chain) VerifyExt(height int64, v *ValKeys, ext []byte) (ok bool, panick
 }
 
 // HostileExtension produces a vote extension a byzantine (minority) validator could send.
+// Every third hostile vote that has something to attest (chosen by height and sender, without a draw, so that the
+// random stream of all other choices is what it was before this case existed) names, in its first attestation, a
+// snapshot that IS stored but is not the one requested: an older one, properly signed by the sender - preferably one
+// whose attestation list is exactly as long as the sender's index in the saved validator set (the validator set grew
+// since that snapshot was taken and the sender sits just past the end of its list), else one of another length than
+// the current set, else any older one.
 func HostileExtension(r *Rng, c *Chain, v *ValKeys, honest []byte) []byte {
+	out := hostileExtension(r, c, v, honest)
+	var ext app.BridgeVoteExtension
+	if json.Unmarshal(honest, &ext) != nil || len(ext.OracleAttestations) == 0 || (c.Height+int64(v.ConsAdr[0]))%3 != 0 {
+		return out
+	}
+	ctx := c.CommittedCtx()
+	bk := c.App.BridgeKeeper
+	idx, setLen := -1, 0
+	if evm, err := bk.OperatorToEVMAddressMap.Get(ctx, v.ValAdr.String()); err == nil {
+		if set, err := bk.BridgeValset.Get(ctx); err == nil {
+			setLen = len(set.BridgeValidatorSet)
+			for i, bv := range set.BridgeValidatorSet {
+				if string(bv.EthereumAddress) == string(evm.EVMAddress) {
+					idx = i
+				}
+			}
+		}
+	}
+	requested := map[string]bool{}
+	for _, a := range ext.OracleAttestations {
+		requested[string(a.Snapshot)] = true
+	}
+	var edge, otherLen, any []byte
+	n := 0
+	_ = bk.SnapshotToAttestationsMap.Walk(ctx, nil, func(k []byte, val bridgetypes.OracleAttestations) (bool, error) {
+		n++
+		if requested[string(k)] {
+			return n > 600, nil
+		}
+		switch {
+		case idx >= 0 && len(val.Attestations) == idx && edge == nil:
+			edge = append([]byte{}, k...)
+		case len(val.Attestations) != setLen && otherLen == nil:
+			otherLen = append([]byte{}, k...)
+		case any == nil:
+			any = append([]byte{}, k...)
+		}
+		return n > 600 || edge != nil, nil
+	})
+	pick := edge
+	if pick == nil {
+		pick = otherLen
+	}
+	if pick == nil {
+		pick = any
+	}
+	if pick == nil {
+		return out
+	}
+	ext.OracleAttestations[0] = app.OracleAttestation{Snapshot: pick, Attestation: v.BridgeSign(pick)}
+	bz, _ := json.Marshal(ext)
+	return bz
+}
+
+func hostileExtension(r *Rng, c *Chain, v *ValKeys, honest []byte) []byte {
 	var ext app.BridgeVoteExtension
 	_ = json.Unmarshal(honest, &ext)
 	junk := func(n int) []byte {
